@@ -821,10 +821,15 @@ def _quant(t, which):
     if t.kind != "bool":
         if t.kind == "sc":
             t = _cmp(t, 0, None, eq=True, negate=True)
+        elif t.kind == "opq":
+            return Tensor("bool", z3.Bool("opqb<%d>" % _key_id((which, _opq_key(t)))), (), bool_)
         else:
             raise OutOfSubset("all/any of %s" % t.kind)
     if t.single():
         return Tensor("bool", t.v, (), bool_)
+    tv = z3.simplify(t.v)
+    if z3.is_true(tv) or z3.is_false(tv):
+        return Tensor("bool", tv, (), bool_)   # the same constant on every fibre
     c = ctx()
     memo = c.ghost.setdefault("allany", {})
     key = (which, t.v.sexpr())
@@ -1918,8 +1923,17 @@ def install():
         def f(*a, **k):
             raise OutOfSubset("torch.linalg.%s is not available in this harness" % name)
         return f
-    for nme in ("solve", "cholesky", "eigh", "inverse", "qr", "lstsq", "inv"):
+    for nme in ("solve", "cholesky", "eigh", "inverse", "qr", "inv"):
         setattr(la, nme, _na(nme))
+
+    def _lstsq(a, b, **kw):
+        # contract: some least-squares solution of shape (..., a.shape[-1], b.shape[-1]) (its quality is not used)
+        if len(b._shape) == len(a._shape) - 1:   # batch of vectors
+            shape = list(a._shape[:-2]) + [a._shape[-1]]
+        else:
+            shape = list(bcast_shapes(a._shape[:-2], b._shape[:-2])) + [a._shape[-1], b._shape[-1]]
+        return (_opaque_result("lstsq", [a, b], shape, b.dtype),)
+    la.lstsq = _lstsq
     t.linalg = la
     t.inverse = _na("inverse")
 
